@@ -105,3 +105,15 @@ def runRedef (fl : Flags) (b : Block) : Res :=
     stats := [s!"outcome={cls}", s!"convs={bld.convs.length}", s!"execs=1", s!"runs={per.length}"] }
 
 end ArgMapper.Driver
+
+namespace ArgMapper.Driver
+
+/-- `alias` blocks: after calling a redefined function, is the caller's option slice (spare capacity
+included) still what the caller put there? -/
+def runAlias (b : Block) : Res :=
+  let v := ((field b "alias").getD []).headD "skip"
+  { conform := none,
+    prop := if v = "modified" ∨ v = "panic" then some s!"calling_the_redefined_function_{v}_the_callers_option_slice" else none,
+    stats := ["execs=1", "outcome=ok", "size=1"] }
+
+end ArgMapper.Driver
